@@ -122,5 +122,86 @@ theorem accB_spec (ws : List Nat) (n : Nat) (hws : ws.length = n) :
         rw [ha, hp2, hr2, hl2, hl1, hr1, Nat.mul_add, Nat.mul_add]
         omega
 
+
+theorem shortHit_false : ∀ (n : Nat) (ws : List Nat) (l r : Row), ws.length = n → l.length = n → r.length = n →
+    shortHit ws l r = false
+  | 0, [], [], [], _, _, _ => by simp [shortHit]
+  | n + 1, w :: ws, a :: l, b :: r, h1, h2, h3 => by
+    have ih := shortHit_false n ws l r (by simpa using h1) (by simpa using h2) (by simpa using h3)
+    simp [shortHit, ih]
+  | 0, _ :: _, _, _, h, _, _ => by simp at h
+  | 0, [], _ :: _, _, _, h, _ => by simp at h
+  | 0, [], [], _ :: _, _, _, h => by simp at h
+  | n + 1, [], _, _, h, _, _ => by simp at h
+  | n + 1, _ :: _, [], _, _, h, _ => by simp at h
+  | n + 1, _ :: _, _ :: _, [], _, _, h => by simp at h
+
+/-- on a viewed (bifurcating, fully covered) tree the general recursion succeeds and is `accB` -/
+theorem accT_view {m : Matrix} {ws : List Nat} {n : Nat} (hws : ws.length = n) {t : T} {bv : BV} (hv : View m t bv) :
+    bv.All (fun row => row.length = n) → ∀ (sc : Nat) (bc : List Nat), bc.length = n →
+      accT m ws t sc bc = .ok (accB ws bv sc bc) := by
+  induction hv with
+  | @leaf i x l s row h =>
+    intro _ sc bc _
+    simp [accT, accTL, nodeStep, h, accB]
+  | @node i x l s a b ba bb hva hvb iha ihb =>
+    intro hr sc bc hbc
+    have ea := iha hr.1 sc bc hbc
+    obtain ⟨l1, l2, _, _⟩ := accB_spec ws n hws ba hr.1 sc bc hbc
+    have eb := ihb hr.2 (accB ws ba sc bc).2.1 (accB ws ba sc bc).2.2 l2
+    obtain ⟨r1, _, _, _⟩ := accB_spec ws n hws bb hr.2 (accB ws ba sc bc).2.1 (accB ws ba sc bc).2.2 l2
+    simp only [accT, accTL, ea, eb, nodeStep, foldRows, shortHit_false n ws _ _ hws l1 r1, accB]
+    simp
+
+/-- character by character, `t` behaves as Fitch on the columns of `bv` (with the accumulators threaded through) -/
+def SpecT (m : Matrix) (ws : List Nat) (n : Nat) (t : T) (bv : BV) : Prop :=
+  ∀ (sc : Nat) (bc : List Nat), bc.length = n → ∃ row sc' bc',
+    accT m ws t sc bc = .ok (row, sc', bc') ∧ row.length = n ∧ bc'.length = n ∧
+    sc' + sumL bc = sc + sumL bc' ∧
+    ∀ c, c < n → row.getD c 0 = (fitch (col c bv)).1 ∧
+                 bc'.getD c 0 = bc.getD c 0 + ws.getD c 0 * (fitch (col c bv)).2
+
+theorem spec_view {m : Matrix} {ws : List Nat} {n : Nat} (hws : ws.length = n) {t : T} {bv : BV} (hv : View m t bv)
+    (hr : bv.All (fun row => row.length = n)) : SpecT m ws n t bv := by
+  intro sc bc hbc
+  obtain ⟨e1, e2, e3, e4⟩ := accB_spec ws n hws bv hr sc bc hbc
+  exact ⟨_, _, _, accT_view hws hv hr sc bc hbc, e1, e2, e3, e4⟩
+
+/-- the usual unrooted form: a basal trifurcation `[a, b, c]` behaves as the bifurcating tree `((a, b), c)` -/
+theorem spec_tri {m : Matrix} {ws : List Nat} {n : Nat} (hws : ws.length = n) {a b c : T} {ba bb bcv : BV}
+    (hva : View m a ba) (hvb : View m b bb) (hvc : View m c bcv)
+    (hra : ba.All (fun row => row.length = n)) (hrb : bb.All (fun row => row.length = n))
+    (hrc : bcv.All (fun row => row.length = n))
+    (i : Nat) (x : Option Nat) (l : Option Frac) (s : Option String) :
+    SpecT m ws n (.node i x l s [a, b, c]) (.node (.node ba bb) bcv) := by
+  intro sc bc hbc
+  obtain ⟨ra, sa, ca, ea, la1, la2, la3, la4⟩ := spec_view hws hva hra sc bc hbc
+  obtain ⟨rb, sb, cb, eb, lb1, lb2, lb3, lb4⟩ := spec_view hws hvb hrb sa ca la2
+  obtain ⟨rc, s3, c3, ec, lc1, lc2, lc3, lc4⟩ := spec_view hws hvc hrc sb cb lb2
+  obtain ⟨p1, p2, p3⟩ := pairLoop_spec n ws ra rb hws la1 lb1
+  obtain ⟨a1, a2, a3⟩ := addL_spec n c3 (pairLoop ws ra rb).2 lc2 p2
+  obtain ⟨q1, q2, q3⟩ := pairLoop_spec n ws (pairLoop ws ra rb).1 rc hws p1 lc1
+  obtain ⟨b1, b2, b3⟩ := addL_spec n (addL c3 (pairLoop ws ra rb).2) (pairLoop ws (pairLoop ws ra rb).1 rc).2 a1 q2
+  refine ⟨(pairLoop ws (pairLoop ws ra rb).1 rc).1,
+    s3 + sumL (pairLoop ws ra rb).2 + sumL (pairLoop ws (pairLoop ws ra rb).1 rc).2,
+    addL (addL c3 (pairLoop ws ra rb).2) (pairLoop ws (pairLoop ws ra rb).1 rc).2, ?_, q1, b1, ?_, ?_⟩
+  · simp only [accT, accTL, ea, eb, ec, nodeStep, foldRows, shortHit_false n ws _ _ hws la1 lb1,
+      shortHit_false n ws _ _ hws p1 lc1]
+    simp
+  · rw [b2, a2]; omega
+  · intro k hk
+    have ⟨ha1, ha2⟩ := la4 k hk
+    have ⟨hb1, hb2⟩ := lb4 k hk
+    have ⟨hc1, hc2⟩ := lc4 k hk
+    have ⟨hp1, hp2⟩ := p3 k hk
+    have ⟨hq1, hq2⟩ := q3 k hk
+    constructor
+    · simp only [col, Bt.map, fitch] at ha1 hb1 hc1 ⊢
+      rw [hq1, hp1, ha1, hb1, hc1]
+    · simp only [col, Bt.map, fitch] at ha1 hb1 hc1 ha2 hb2 hc2 ⊢
+      rw [b3 k hk, a3 k hk, hq2, hp2, hp1, hc2, hb2, ha2, ha1, hb1, hc1]
+      simp only [Nat.mul_add]
+      omega
+
 end Aux
 end DendroModel.C16
